@@ -154,6 +154,7 @@ def h_split_join(eng, nblocks, kinds, nexpr, custom_tables, uninit, ordered=Fals
         for key, v in (table.get(iv, {}) or {}).items():
             hit = [x for x in notes if x[0] == v]
             eng.check(iv.address + key == A + hit[0][1], "split moved an aux data entry to another address")
+            eng.check(And(key >= 0, key < iv.size), "aux data entry outside its interval after split")
             found += 1
     eng.check(found == len(notes), "split lost an aux data entry")
     # ---- join restores the interval (fully initialised case) ---------------------
